@@ -17,6 +17,9 @@ TRUSTED_BASE = [
     "folds / scales it; float mode rtol 1e-7 (the tolerance of the minvar correspondence of C16)",
     "option variants (kind opts): the raw estimate comes from the functional API called with the same option "
     "(aryule(norm=), arburg(criteria=), pmtm(e=, v=), music(threshold=), ev(criteria=)); Periodogram(detrend=) is oracle-only",
+    "kind hist: the fresh objects (constructor path, default layout; brought to another layout through the sides setter) are the reference "
+    "of the histories; the harness's own to_layout (a one-sided value is the sum of the two two-sided values at +-f; DC / Nyquist single) "
+    "carries the formula to the other layouts",
     "numpy.hamming / hanning / blackman / ones are the independent window references of the speriodogram scaling oracle",
     "kind a2pbin: numpy.longdouble (eps %.2e on this platform) cos / sin / sqrt are the reference of the per-bin enclosure of arma2psd; the "
     "enclosure allows a double precision evaluation of B(f), A(f) an absolute error of 256 eps (1 + sum|coefficients|) (worst needed by the "
@@ -28,6 +31,11 @@ ASSUMPTIONS = ["pi is an abstract positive constant in the theorems; 2*pi = 6.28
                "off a sampling change by c MULTIPLIES it by c; the oracle asserts exactly that",
                "scale_by_freq 'on' is the Python bool True only (quantifier: {False, True}); complex data has no one-sided representation "
                "(get_converted_psd / sides = 'onesided' are documented to be rejected there and are not generated)",
+               "histories (kind hist): nothing is demanded about WHICH layout an object is in after scale_by_freq / sampling / NFFT was assigned "
+               "(the library recomputes and resets it to the default one): only that psd, sides and frequencies(), read in that order, describe the "
+               "same function of frequency and that it is the one of the statement.  frequencies() called between such an assignment and the next "
+               "read of psd is executed but not compared (it still reports the old layout on the unchanged tree: candidate finding, "
+               "/tmp/finding_C08.py, marked PENDING-FINDING in the module); sampling values assigned in a history stay inside (1e-2, 1e5)",
                "arma2psd bin by bin (a2pbin): AR parts with |A(f)| < 2e-10 at a grid frequency are redrawn (a pole of the spectrum ON the grid has "
                "no value to compare); zeros of B exactly on the grid are kept (the value there is 0 or ~1e-32 and must come out as >= 0 "
                "and at most the rounding enclosure)"]
@@ -42,7 +50,16 @@ RULE = ("all 14 estimator class variants x real/complex data x NFFT in {None, ne
         "unit circle (and zeros exactly on it) at angles on, or 1e-6 .. 0.5 bin away from, a grid frequency (DC, Nyquist, quarter, random bin): "
         "notches [-2r cos th, r^2], single real / complex zeros, notch filters with pulled-in or random AR part, near-circle resonances, "
         "pole + zero, near-circle zero times a random factor, random models; real and complex, ndarray and list, NFFT 4..64 and "
-        "100..4097; per bin also: finite, never negative, T -> c*T divides and rho -> c*rho multiplies every bin (nulls included) by one factor")
+        "100..4097; per bin also: finite, never negative, T -> c*T divides and rho -> c*rho multiplies every bin (nulls included) by one factor; "
+        "HISTORIES ON ONE OBJECT (kind hist): all 14 class variants x real/complex (NFFT 64 / 45 / None / nextpow2 / 127 / 48, default and random "
+        "configurations in the thorough tier): the estimate is computed, the object is put in a non-default layout (sides = twosided / centerdc for "
+        "real data, centerdc for complex data, 'default'), then scale_by_freq is flipped (either direction, twice without a read in between, to the "
+        "value it has), sampling re-assigned (float and int, and back), NFFT changed (and back), in every order, before the first computation, "
+        "interleaved with psd / o() / run() / get_converted_psd / frequencies reads and with rejected assignments (unknown sides, NFFT 0 / 2.5, "
+        "complex one-sided), seven templates + a random walk over the same alphabet; at every observation psd (read first), sides, frequencies(), "
+        "df, the attributes and get_converted_psd(L) / frequencies(L) for every layout are compared with a fresh object built with the final values "
+        "and brought to the claimed layout, and with the formula (fresh unscaled estimate x sampling factor x 2*pi/df once), the values paired with "
+        "frequencies() by frequency bin; len(psd) == len(frequencies()); bin-wise rtol 1e-12")
 
 
 def c(v):
@@ -518,6 +535,342 @@ def oracle_entry(p):
     return out
 
 
+# ---- histories on ONE object: layout changes, then scale_by_freq / sampling / NFFT assignments ------------------
+#
+# Kinds glue / entry / opts evaluate every clause on freshly constructed objects in their DEFAULT layout (one-sided for real data,
+# two-sided for complex data), or flip scale_by_freq on an object that still is in that layout.  Kind hist drives ONE object through a
+# history `ops` (a list of small lists, replayable from the parameters alone):
+#     ["read"] o.psd   ["call"] o()   ["run"] o.run()   ["sides", s] o.sides = s   ["scale", b] o.scale_by_freq = b
+#     ["fs", v] o.sampling = v   ["nfft", n] o.NFFT = n   ["conv", s] o.get_converted_psd(s) (its value is checked)
+#     ["freq"] o.frequencies() (value not compared, see PENDING-FINDING below)   ["bad", what] an assignment / call the library rejects
+#     ["obs"] observe
+# and at every "obs" takes a snapshot of what the object reports -- psd (read first), then sides, frequencies(), df, scale_by_freq,
+# sampling, NFFT, get_converted_psd(L) / frequencies(L) for every layout L -- and compares it with
+#   (a) a FRESH object constructed with the attribute values the history has assigned last, brought to the layout the object claims, and
+#   (b) the formula of the statement: fresh unscaled estimate at the original sampling frequency (default layout) times the sampling
+#       factor of the class family (1/c, 1, c) times 2*pi/df exactly once if scale_by_freq is on, every value carried to the entry whose
+#       reported frequency matches (the values are paired with frequencies() through the frequency bin, not through the position).
+# Nothing is demanded about WHICH layout the object is in after an assignment (the library resets it to the default one when it
+# recomputes): only that psd, sides and frequencies() describe the same, correct, function of frequency.
+#
+# Tolerance HIST_TOL = 1e-12, bin-wise relative.  Measured on the unchanged tree (5 quick seeds + 2 thorough generator rounds, all input variants,
+# ~41000 compared arrays): (a) is bit-identical (0.0) -- both objects run the same computation --; (b) differs by at most 4.5e-16 (three
+# roundings: sampling factor, 2*pi/df, the halving of a two-sided layout); 1e-12 is > 2000x that.
+
+HIST_TOL = 1e-12
+_HIST_DEV = {"a": 0.0, "b": 0.0, "n": 0}        # worst deviations seen (filled only when C08_HIST_MEASURE is set in the environment)
+
+
+def to_layout(a, isreal, nfft, sd):
+    """default-layout estimate (one-sided for real data, two-sided for complex data) -> layout sd, every value carried to the entries
+    whose frequency matches: a one-sided value is the sum of the two two-sided values at +-f (DC and Nyquist have one partner only)"""
+    a = np.asarray(a, dtype=float)
+    if isreal:
+        if sd == "onesided":
+            return a
+        t = np.empty(nfft)
+        t[0] = a[0]
+        for k in range(1, len(a)):
+            if nfft % 2 == 0 and k == nfft // 2:
+                t[k] = a[k]
+            else:
+                t[k] = t[nfft - k] = a[k] / 2.0
+    else:
+        t = a
+    if sd == "twosided":
+        return t
+    return t[axis_bins("centerdc", nfft) % nfft]
+
+
+def to_plain(o):
+    return [to_plain(v) for v in o] if isinstance(o, (list, tuple)) else (o.item() if isinstance(o, np.generic) else o)
+
+
+def _devs(got, ref):
+    with np.errstate(all="ignore"):
+        d = np.abs(np.asarray(got, dtype=float) - ref) / np.abs(ref)
+    d = d[np.isfinite(d)]
+    return float(np.max(d)) if d.size else 0.0
+
+
+def _hist_bad(o, what, isreal):
+    """assignments / calls the library rejects: they must leave the object as it was (whether they raise is not C08's business)"""
+    try:
+        if what == "sides":
+            o.sides = "bothsided"
+        elif what == "nfft0":
+            o.NFFT = 0
+        elif what == "nfftf":
+            o.NFFT = 2.5
+        elif what == "freq":
+            o.frequencies("bothsided")
+        elif what == "conv":
+            o.get_converted_psd("bothsided" if isreal else "onesided")
+    except Exception:
+        pass
+
+
+def hist_tags(p):
+    """what the history does, by a replay of the ops on the documented state machine (layout reset by a recomputation / NFFT change)"""
+    isreal = np.isrealobj(p["x"])
+    dflt = "onesided" if isreal else "twosided"
+    lay, upd, scale, fs = dflt, False, p["scale"], p["fs"]
+    tags = set(["hist", "hist:" + p["cls"], "hist:" + ("real" if isreal else "complex"), "hist:tmpl-" + p.get("tmpl", "?")])
+    for op in p["ops"]:
+        w = op[0]
+        if w in ("read", "call", "run", "obs", "conv"):
+            if not upd:
+                lay = dflt
+            upd = True
+            if w == "obs":
+                tags.add("hist:obs@" + lay)
+        elif w == "sides":
+            lay = dflt if op[1] == "default" else op[1]
+            upd = True
+        elif w in ("scale", "fs"):
+            new = op[1]
+            same = (new == scale) if w == "scale" else (new == fs)
+            tags.add("hist:%s%s@%s/%s" % ("scale-flip" if w == "scale" else "sampling", "(same value)" if same else "", lay,
+                                          "up-to-date" if upd else "pending" if lay != dflt or scale != p["scale"] or fs != p["fs"] else "before-first"))
+            if not same:
+                upd = False
+            if w == "scale":
+                scale = new
+            else:
+                fs = new
+        elif w == "nfft":
+            tags.add("hist:nfft@%s" % lay)
+            lay, upd = dflt, False
+        elif w == "bad":
+            tags.add("hist:rejected-" + op[1])
+    return sorted(tags)
+
+
+def oracle_hist(p):
+    x = np.asarray(p["x"])
+    cls, cfg, fs0 = p["cls"], p.get("cfg"), p["fs"]
+    isreal = np.isrealobj(x)
+    dflt = "onesided" if isreal else "twosided"
+    layouts = SIDES if isreal else SIDES[:2]
+    st = {"fs": fs0, "scale": p["scale"], "nfft_arg": p["nfft"], "nfft": C.resolved_nfft(x, p["nfft"])}
+    tag = "%s (%s, N=%d, NFFT=%s, sampling=%g, scale_by_freq=%s) history" % (cls, "real" if isreal else "complex", len(x), p["nfft"], fs0, p["scale"])
+    out = []
+    measure = bool(__import__("os").environ.get("C08_HIST_MEASURE"))
+    base = {}
+
+    def a0(nfft_arg):
+        """fresh, unscaled, original sampling frequency, default layout: the reference of the formula"""
+        k = str(nfft_arg)
+        if k not in base:
+            base[k] = np.array(C.make(cls, x, nfft_arg, fs0, False, cfg).psd)
+        return base[k]
+
+    def formula(sd):
+        nfft, fs = st["nfft"], float(st["fs"])
+        f = samp_factor(cls, fs / fs0) if fs != fs0 else 1.0
+        if st["scale"]:
+            f = f * (C.TWO_PI / (fs / nfft))
+        return to_layout(a0(st["nfft_arg"]) * f, isreal, nfft, sd)
+
+    def done(i):
+        return "after %s" % ", ".join("%s" % (op[0] if len(op) == 1 else "%s=%r" % (op[0], op[1])) for op in p["ops"][:i + 1])
+
+    def cmp(i, what, got, ref, src):
+        got = np.asarray(got)
+        if measure and got.shape == np.shape(ref):
+            _HIST_DEV[src] = max(_HIST_DEV[src], _devs(got, ref))
+            _HIST_DEV["n"] += 1
+        if not close(got, ref, HIST_TOL):
+            out.append("%s: %s is not %s (%s) [%s]" % (tag, what, "what a fresh object with the final attribute values gives" if src == "a" else
+                                                       "the fresh unscaled estimate times %s, value by value at the matching frequency" % (
+                                                           "the sampling factor, times 2*pi/df once" if st["scale"] else "the sampling factor"),
+                                                       worst(got, ref), done(i)))
+
+    o = C.make(cls, x, p["nfft"], fs0, p["scale"], cfg)
+    for i, op in enumerate(p["ops"]):
+        w = op[0]
+        if w == "read":
+            o.psd
+        elif w == "call":
+            o()
+        elif w == "run":
+            o.run()
+        elif w == "sides":
+            o.sides = op[1]
+        elif w == "scale":
+            o.scale_by_freq = op[1]
+            st["scale"] = op[1]
+        elif w == "fs":
+            o.sampling = op[1]
+            st["fs"] = op[1]
+        elif w == "nfft":
+            o.NFFT = op[1]
+            st["nfft_arg"] = op[1]
+            st["nfft"] = C.resolved_nfft(x, op[1])
+        elif w == "freq":
+            # PENDING-FINDING (/tmp/finding_C08.py): on the unchanged tree frequencies() called BETWEEN an assignment of scale_by_freq /
+            # sampling to an object in a non-default layout and the next read of psd still returns the axis of the old layout, while the
+            # psd read right after it comes back in the default layout (`plot(p.frequencies(), p.psd)` pairs them wrongly).  Until that
+            # is ruled on, the call is made (it must not disturb anything) but its value is compared only inside "obs", after psd was read.
+            o.frequencies()
+        elif w == "bad":
+            _hist_bad(o, op[1], isreal)
+        elif w == "conv":
+            g = np.array(o.get_converted_psd(op[1]))
+            cmp(i, "get_converted_psd(%r)" % op[1], g, formula(op[1]), "b")
+        elif w == "obs":
+            nfft, fs = st["nfft"], float(st["fs"])
+            psd = np.array(o.psd)                    # psd first: the snapshot is what the object reports once it is up to date
+            sd = o.sides
+            f = np.asarray(o.frequencies(), dtype=float)
+            if sd not in layouts:
+                out.append("%s: sides is %r [%s]" % (tag, sd, done(i)))
+                break
+            if o.scale_by_freq is not st["scale"] or o.sampling != st["fs"] or o.NFFT != nfft or abs(o.df - fs / nfft) > 1e-12 * fs / nfft:
+                out.append("%s: attributes read back scale_by_freq=%r sampling=%r NFFT=%r df=%r, assigned %r, %r, %r (df %r) [%s]" % (
+                    tag, o.scale_by_freq, o.sampling, o.NFFT, o.df, st["scale"], st["fs"], nfft, fs / nfft, done(i)))
+            if psd.shape != f.shape:
+                out.append("%s: psd has %d values but frequencies() %d (sides %r, NFFT=%d) [%s]" % (tag, psd.size, f.size, sd, nfft, done(i)))
+            else:
+                # pair the values with the frequencies the object reports: {frequency bin mod NFFT: value}
+                kb = np.rint(f / (fs / nfft)).astype(int) % nfft
+                ref = formula(sd)
+                rb = axis_bins(sd, nfft) % nfft
+                if len(set(kb.tolist())) != kb.size or set(kb.tolist()) != set(rb.tolist()):
+                    out.append("%s: frequencies() (sides %r) does not name the bins of that layout once each [%s]" % (tag, sd, done(i)))
+                else:
+                    want_at = dict(zip(rb.tolist(), ref.tolist()))
+                    refv = np.array([want_at[k] for k in kb.tolist()])
+                    if measure:
+                        _HIST_DEV["b"] = max(_HIST_DEV["b"], _devs(psd, refv))
+                    if not close(psd, refv, HIST_TOL):
+                        with np.errstate(all="ignore"):
+                            j = int(np.nanargmax(np.abs(psd - refv) / np.abs(refv)))
+                        out.append("%s: psd paired with frequencies() (sides now %r): the value reported at frequency bin %d is %.9g, but the fresh unscaled "
+                                   "estimate times %s there is %.9g (%s) [%s]" % (
+                                       tag, sd, int(kb[j]) if sd != "centerdc" or kb[j] < nfft - nfft // 2 else int(kb[j]) - nfft, psd[j],
+                                       "%.6g * 2*pi/df" % samp_factor(cls, fs / fs0) if st["scale"] else "%.6g" % samp_factor(cls, fs / fs0),
+                                       refv[j], worst(psd, refv), done(i)))
+            # absolute frequency axes: bin * sampling / NFFT for the claimed layout and for every layout asked by name
+            for L, fL in [(sd, f)] + [(L, np.asarray(o.frequencies(L), dtype=float)) for L in SIDES]:
+                axis = axis_bins(L, nfft) * fs / nfft
+                if fL.shape != axis.shape or not np.all(np.abs(fL - axis) <= 1e-12 * abs(fs)):
+                    out.append("%s: frequencies(%s) at sampling=%r, NFFT=%d (sides now %r) is not bin*sampling/NFFT (%s) [%s]" % (
+                        tag, "" if fL is f else repr(L), st["fs"], nfft, sd, "length %d, expected %d" % (fL.size, axis.size) if fL.shape != axis.shape else
+                        "max deviation %.3e" % float(np.max(np.abs(fL - axis))), done(i)))
+            # (a) a fresh object with the final attribute values, brought to the same layout
+            fr = C.make(cls, x, st["nfft_arg"], st["fs"], st["scale"], cfg)
+            fr.psd
+            if sd != dflt:
+                fr.sides = sd
+            cmp(i, "psd (sides now %r)" % sd, psd, np.array(fr.psd), "a")
+            # every layout, read through get_converted_psd, against (b) and (a)
+            for L in layouts:
+                g = np.array(o.get_converted_psd(L))
+                cmp(i, "get_converted_psd(%r) (sides now %r)" % (L, sd), g, formula(L), "b")
+                cmp(i, "get_converted_psd(%r) (sides now %r)" % (L, sd), g, np.array(fr.get_converted_psd(L)), "a")
+                if g.size != np.size(o.frequencies(L)):
+                    out.append("%s: get_converted_psd(%r) has %d values, frequencies(%r) %d [%s]" % (tag, L, g.size, L, np.size(o.frequencies(L)), done(i)))
+            if o.sides != sd or not np.array_equal(np.array(o.psd), psd):
+                out.append("%s: reading get_converted_psd / frequencies changed psd or sides (%r -> %r) [%s]" % (tag, sd, o.sides, done(i)))
+        else:
+            raise ValueError(op)
+        if len(out) >= 4:
+            break
+    return out
+
+
+def _hist_templates(nrng, isreal, s, fs, cfac, nfft_int, nfft2):
+    """histories as lists of ops; L1, L2: the non-default layouts (complex data has one: the second is 'centerdc' again / 'default')"""
+    if isreal:
+        L1, L2 = ("twosided", "centerdc") if nrng.integers(0, 2) else ("centerdc", "twosided")
+    else:
+        L1, L2 = "centerdc", ("centerdc", "default")[int(nrng.integers(0, 2))]
+    Lc = "twosided" if L2 == "default" else L2          # a layout name get_converted_psd accepts
+    n = not s
+    if not 1e-2 < fs * cfac < 1e5:
+        cfac = 1.0 / cfac                                # stay inside the quantifier: sampling in (1e-2, 1e5)
+    fs2 = [int(max(1, round(fs * cfac))), float(fs * cfac)][int(nrng.integers(0, 2))]
+    T = {}
+    # flip scale_by_freq on an up-to-date object in a non-default layout: once, twice without a read in between, and back
+    T["flip"] = [["read"], ["sides", L1], ["scale", n], ["obs"], ["sides", L2], ["scale", s], ["scale", n], ["obs"],
+                 ["sides", L1], ["scale", s], ["obs"], ["sides", L2], ["scale", s], ["obs"]]
+    # re-assign sampling in a non-default layout; together with a flip; back to the original value; an integer value
+    T["sampling"] = [["call"], ["sides", L1], ["fs", fs * cfac], ["obs"], ["sides", L2], ["scale", n], ["fs", fs], ["obs"],
+                     ["sides", L1], ["scale", s], ["obs"], ["sides", L2], ["fs", fs2], ["obs"], ["sides", L1], ["fs", fs], ["scale", n], ["obs"]]
+    # flips and layout assignments before the first computation, two flips between reads, reads through get_converted_psd only
+    T["first"] = [["scale", n], ["sides", L1], ["obs"], ["scale", s], ["obs"], ["sides", L2], ["conv", L1], ["scale", n], ["conv", L1], ["obs"],
+                  ["sides", L1], ["scale", s], ["scale", n], ["conv", Lc], ["obs"]]
+    # after an NFFT change (which resets the layout), then again in a non-default layout at the new NFFT, then back
+    T["nfft"] = [["read"], ["sides", L1], ["nfft", nfft2], ["scale", n], ["obs"], ["sides", L1], ["obs"], ["scale", s], ["conv", L1], ["obs"],
+                 ["sides", L2], ["nfft", nfft_int], ["obs"], ["sides", L1], ["scale", n], ["obs"]]
+    # interleaved with reads of every sort
+    T["reads"] = [["read"], ["sides", L1], ["conv", Lc], ["freq"], ["scale", n], ["freq"], ["conv", L1], ["obs"],
+                  ["sides", L2], ["read"], ["scale", s], ["read"], ["sides", L1], ["obs"], ["run"], ["sides", L1], ["scale", n], ["call"], ["obs"]]
+    # assignments / calls the library rejects in between
+    T["rejected"] = [["read"], ["sides", L1], ["bad", "sides"], ["scale", n], ["bad", "nfft0"], ["obs"], ["sides", L2], ["bad", "conv"], ["scale", s],
+                     ["bad", "freq"], ["obs"], ["sides", L1], ["bad", "nfftf"], ["fs", fs * cfac], ["bad", "sides"], ["obs"]]
+    # random walk over the same alphabet
+    ops = [["read"]] if nrng.integers(0, 3) else []
+    cur_s, cur_fs = s, fs
+    for t in range(int(nrng.integers(8, 15))):
+        r = int(nrng.integers(0, 20))
+        if r < 6:
+            ops.append(["sides", [L1, L2, "centerdc", "default", "twosided"][int(nrng.integers(0, 5))]])
+        elif r < 11:
+            cur_s = not cur_s if nrng.integers(0, 5) else cur_s
+            ops.append(["scale", cur_s])
+        elif r < 14:
+            cur_fs = [fs, fs * cfac, fs2][int(nrng.integers(0, 3))]
+            ops.append(["fs", cur_fs])
+        elif r < 15:
+            ops.append(["nfft", [nfft2, nfft_int][int(nrng.integers(0, 2))]])
+        elif r < 17:
+            ops.append([["read"], ["call"], ["run"], ["freq"]][int(nrng.integers(0, 4))])
+        elif r < 18:
+            ops.append(["conv", [L1, "twosided"][int(nrng.integers(0, 2))]])
+        else:
+            ops.append(["obs"])
+    T["random"] = ops + [["obs"]]
+    return T
+
+
+HIST_TMPL = ("flip", "sampling", "first", "nfft", "reads", "rejected", "random")
+
+
+def gen_hist(nrng, thorough):
+    """quick: every class variant x real/complex gets the flip history and one other (rotating with the seed); thorough: all seven"""
+    rot = int(nrng.integers(0, 6))
+    k = 0
+    for rep in range(1 if not thorough else 3):
+        for ic, cls in enumerate(C.CLASSES):
+            for cplx in (False, True):
+                k += 1
+                N = 40 if rep == 0 else [30, 31, 40][k % 3]
+                x = C.test_data(nrng, N, cplx)
+                nfft = [64, 45, None, "nextpow2", 127, 48][(k + rep) % 2 + 2 * rep]
+                cfg = None
+                if rep == 2:
+                    cfg = C.random_cfg(nrng, cls, N, boundary=(k % 5 == 4))
+                need = C.min_nfft(cls, N, cfg or C.default_cfg(cls, N, cplx))
+                if C.resolved_nfft(x, nfft) < need:
+                    nfft = need
+                nfft_int = C.resolved_nfft(x, nfft)
+                nfft2 = max([48, 51, 80, 41][k % 4], need)
+                if nfft2 == nfft_int:
+                    nfft2 += 3
+                fs = float(10 ** nrng.uniform(-2, 5))
+                cfac = [4.0, 0.5, 250.0, 2.0][(k // 2) % 4]
+                s = bool((k // 2 + ic) % 2)
+                T = _hist_templates(nrng, not cplx, s, fs, cfac, nfft_int, nfft2)
+                names = HIST_TMPL if thorough else ("flip", HIST_TMPL[1 + (k + rot) % 6])
+                for nm in names:
+                    q = {"cls": cls, "x": x, "nfft": nfft, "fs": fs, "scale": s, "c": cfac, "tmpl": nm, "ops": T[nm]}
+                    if cfg is not None:
+                        q["cfg"] = cfg
+                    yield ("hist", q)
+
+
 # ---- option values other than the defaults ---------------------------------------------------------------
 
 OPTS = (["pyule:biased", "pyule:unbiased"] + ["pburg:" + k for k in ("AIC", "AICc", "KIC", "FPE", "AKICc", "MDL")] +
@@ -730,6 +1083,9 @@ KINDS = {
                                   "mvglue:scale-%s" % p["scale"]]},
     "entry": {"oracle": oracle_entry, "key": _key_x,
               "tags": lambda p: ["entry:" + p["cls"], "entry:" + ("complex" if np.iscomplexobj(p["x"]) else "real"), "entry:" + _nfft_tag(p)]},
+    "hist": {"oracle": oracle_hist,
+             "key": lambda p: "%s|%s|%d" % (_key_x(p), p.get("tmpl"), zlib.crc32(repr(to_plain(p["ops"])).encode()) & 0xFFFFFF),
+             "tags": hist_tags},
     "opts": {"impl": impl_opts, "model": model_opts, "oracle": oracle_opts, "rtol": 1e-9, "atol": 1e-300, "key": _key_x,
              "tags": lambda p: ["opt:" + p["opt"], "opt:" + ("complex" if np.iscomplexobj(p["x"]) else "real"), "opt:" + _nfft_tag(p)]},
 }
@@ -871,6 +1227,9 @@ def gen(rng, nrng, tier):
     yield from gen_a2pform(nrng, thorough)
     # ---- arma2psd bin by bin: zeros / poles next to the unit circle at (or a fraction of a bin away from) a grid frequency
     yield from gen_a2pbin(nrng, thorough)
+    # ---- histories on one object: non-default layout, then scale_by_freq / sampling / NFFT assignments (LAST: the random streams of
+    #      all the cases above are the ones they had before this kind existed)
+    yield from gen_hist(nrng, thorough)
 
 
 SMALL_NFFT = [("pburg", {"order": 4}, (16, 5)), ("pyule", {"order": 4}, (5, 6)), ("pcovar", {"order": 4}, (9, 5)), ("pmodcovar", {"order": 3}, (4, 7)),
